@@ -17,11 +17,13 @@ cp $DEMO /verif/seeded/$NAME/
 cd /repo && git status --short | grep -q . && { echo "/repo dirty"; exit 8; }
 git -C /repo apply /verif/seeded/$NAME/patch.diff || { echo "patch does not apply to /repo"; exit 7; }
 RES=""
+rm -rf /tmp/wt/_evid_bak; cp -r /verif/evidence /tmp/wt/_evid_bak   # runs against a mutant must not leave their evidence behind
 for id in "$@"; do
   cd /verif && ./check $id --tier quick > /tmp/wt/_check_$id.log 2>&1; rc=$?
   RES="$RES $id:rc=$rc"
   echo "== $id rc=$rc"; grep -E "^(VIOLATION|  what|MODEL-DID|HARNESS|INCONC)" /tmp/wt/_check_$id.log | cut -c1-260 | head -6
 done
 git -C /repo checkout -- .
+rm -rf /verif/evidence; cp -r /tmp/wt/_evid_bak /verif/evidence
 rm -rf /verif/evidence/replay
 echo "RESULT $NAME demo_with=$RC_WITH demo_without=$RC_WITHOUT $RES"
